@@ -100,7 +100,12 @@ func sameHeld(a, b heldSet) bool {
 // pathOf canonicalises an address/value to an access path. Roots are
 // variable names (parameters, free variables, named locals) or SSA register
 // names for call results.
-func pathOf(v ssa.Value) string {
+func pathOf(v ssa.Value) string { return pathOfD(v, 0) }
+
+func pathOfD(v ssa.Value, d int) string {
+	if d > 40 {
+		return "v:" + v.Name()
+	}
 	switch x := v.(type) {
 	case *ssa.Parameter:
 		return x.Name()
@@ -115,36 +120,44 @@ func pathOf(v ssa.Value) string {
 		return "global:" + x.Name()
 	case *ssa.UnOp:
 		if x.Op == token.MUL {
-			return pathOf(x.X)
+			return pathOfD(x.X, d+1)
 		}
 	case *ssa.FieldAddr:
 		f, _ := fieldAddrOf(x)
 		if f != nil {
-			return pathOf(x.X) + "." + f.Name()
+			return pathOfD(x.X, d+1) + "." + f.Name()
 		}
 	case *ssa.Field:
 		if st, ok := x.X.Type().Underlying().(*types.Struct); ok {
-			return pathOf(x.X) + "." + st.Field(x.Field).Name()
+			return pathOfD(x.X, d+1) + "." + st.Field(x.Field).Name()
 		}
 	case *ssa.IndexAddr:
-		return pathOf(x.X) + "[]"
+		return pathOfD(x.X, d+1) + "[]"
 	case *ssa.Index:
-		return pathOf(x.X) + "[]"
+		return pathOfD(x.X, d+1) + "[]"
 	case *ssa.ChangeType:
-		return pathOf(x.X)
+		return pathOfD(x.X, d+1)
 	case *ssa.Convert:
-		return pathOf(x.X)
+		return pathOfD(x.X, d+1)
 	case *ssa.ChangeInterface:
-		return pathOf(x.X)
+		return pathOfD(x.X, d+1)
 	case *ssa.MakeInterface:
-		return pathOf(x.X)
+		return pathOfD(x.X, d+1)
 	case *ssa.TypeAssert:
-		return pathOf(x.X)
+		return pathOfD(x.X, d+1)
 	case *ssa.Phi:
 		p := ""
-		for i, e := range x.Edges {
-			q := pathOf(e)
-			if i == 0 {
+		first := true
+		for _, e := range x.Edges {
+			if e == ssa.Value(x) {
+				continue
+			}
+			if _, isPhi := e.(*ssa.Phi); isPhi && d > 6 {
+				return "v:" + x.Name()
+			}
+			q := pathOfD(e, d+1)
+			if first {
+				first = false
 				p = q
 			} else if p != q {
 				return "v:" + x.Name()
